@@ -118,7 +118,8 @@ def reference_tables(facts):
             for blk in j["blocks"]:
                 t = blk["term"]
                 c = strip_generics(t.get("callee") or "")
-                if c.endswith("::then_some"):
+                if c.endswith("::then_some") or (c in SPECS and any("const" in a and "fn" in a["const"] for a in t.get("args", []))):
+                    # closure-less combinators: `then_some`, and combinators handed a function by name (`is_some_and(Handle::is_busy)`)
                     plain.setdefault(j["key"], {}).setdefault(c, 0)
                     plain[j["key"]][c] += 1
     return {"closures": {k: sorted(v) for k, v in closures.items()}, "plain": plain}
@@ -396,7 +397,11 @@ def expand_body(body, bodies, known, log):
                 # no closure involved: new iff the reference tree had fewer such calls in this function
                 ref_n = known["plain"].get(body["key"], {}).get(c, 0)
                 now_n = sum(1 for b2 in live if strip_generics(body["blocks"][b2]["term"].get("callee") or "") == c)
-                is_new = now_n > ref_n and c.endswith("then_some")
+                by_name = bool(fns) and all(f[0] == "fn" for f, _e in fns.values())
+                if by_name:
+                    now_n = sum(1 for b2 in live if strip_generics(body["blocks"][b2]["term"].get("callee") or "") == c
+                                and any("const" in a and "fn" in a["const"] for a in body["blocks"][b2]["term"].get("args", [])))
+                is_new = now_n > ref_n and (c.endswith("then_some") or by_name)
                 if c.endswith("Try>::branch"):
                     # only where the operand was built by the arms of an earlier expansion (`x.map_err(f)?`)
                     ds = defs.get(rp["l"], [])
